@@ -4,7 +4,11 @@ import (
 	"context"
 	"errors"
 	"fmt"
+	"github.com/hashicorp/eventlogger"
+	"runtime"
 	"strings"
+	"sync"
+	"sync/atomic"
 	"testing"
 
 	"verifharness/internal/rt"
@@ -123,6 +127,22 @@ func TestC20(t *testing.T) {
 			}
 			run.Add("fault_positions", 1)
 		}
+		// two captured objects failing in the same call (of different event types where the state has them): the
+		// call returns, and it returns an error that carries at least one of the two failures
+		if len(order) >= 2 {
+			o1, o2 := order[0], order[len(order)-1]
+			f1, f2 := &NodeErr{Obj: o1.Obj, Prov: "reopen-" + rt.Token("e")}, &NodeErr{Obj: o2.Obj, Prov: "reopen-" + rt.Token("e")}
+			o1.ReopenErr, o2.ReopenErr = f1, f2
+			err := w.B.Reopen(context.Background())
+			o1.ReopenErr, o2.ReopenErr = nil, nil
+			switch {
+			case err == nil:
+				run.Violation("history-pattern:reopen-error-lost", fmt.Sprintf("node objects %s and %s both failed in Reopen but Broker.Reopen returned nil", o1.Obj, o2.Obj), wit(nil))
+			case !strings.Contains(err.Error(), f1.Prov) && !strings.Contains(err.Error(), f2.Prov) && !errors.Is(err, error(f1)) && !errors.Is(err, error(f2)):
+				run.Violation("history-pattern:reopen-error-not-carried", "Broker.Reopen's error carries neither of the two failing nodes' errors: "+err.Error(), wit(nil))
+			}
+			run.Add("double_fault_positions", 1)
+		}
 		// objects no registered pipeline captured may fail without consequence
 		for _, o := range others {
 			o.ReopenErr = &NodeErr{Obj: o.Obj, Prov: "reopen-unreferenced"}
@@ -144,5 +164,97 @@ func TestC20(t *testing.T) {
 			}
 			run.Sample(map[string]any{"history": opsString(ops), "objects_reopen_must_reach": ids})
 		}
+	}
+	c20Concurrent(run)
+}
+
+// c20Concurrent: Reopen calls overlap registrations and removals (Reopen walks the pipelines without the Broker's
+// lock). Whatever they saw meanwhile, once everything has returned a Reopen must reach every node of every
+// pipeline that is registered now, and - with the nodes of the pipelines that are not registered made to fail -
+// return nil.
+func c20Concurrent(run *rt.Run) {
+	r := run.Rand()
+	n := run.N(200, 8000)
+	ctx := context.Background()
+	for i := 0; i < n && !run.Stop(); i++ {
+		cr := r.Fork()
+		b, _ := eventlogger.NewBroker()
+		log := &Log{}
+		type pipe struct {
+			typ, pid string
+			nodes    []*RecNode
+			ids      []eventlogger.NodeID
+		}
+		var pipes []*pipe
+		np := cr.Range(2, 5)
+		for k := 0; k < np; k++ {
+			p := &pipe{typ: fmt.Sprintf("t%d", k%2), pid: fmt.Sprintf("p%d", k)}
+			for j, ty := range []eventlogger.NodeType{eventlogger.NodeTypeFilter, eventlogger.NodeTypeFormatter, eventlogger.NodeTypeSink} {
+				id := fmt.Sprintf("n%d-%d", k, j)
+				nd := NewRecNode(log, id, ty, 1, fixedBeh(Pass))
+				nd.OnReopen = func(*RecNode) { runtime.Gosched() }
+				b.RegisterNode(eventlogger.NodeID(id), nd)
+				p.nodes = append(p.nodes, nd)
+				p.ids = append(p.ids, eventlogger.NodeID(id))
+			}
+			pipes = append(pipes, p)
+		}
+		registered := make([]bool, np)
+		var wg sync.WaitGroup
+		var stop int32
+		wg.Add(1)
+		go func() {
+			defer wg.Done()
+			for atomic.LoadInt32(&stop) == 0 {
+				b.Reopen(ctx)
+			}
+		}()
+		steps := cr.Range(4, 40)
+		for s := 0; s < steps; s++ {
+			k := cr.Intn(np)
+			p := pipes[k]
+			if registered[k] && cr.Bool() {
+				b.RemovePipeline(eventlogger.EventType(p.typ), eventlogger.PipelineID(p.pid))
+				registered[k] = false
+			} else {
+				if err := b.RegisterPipeline(eventlogger.Pipeline{PipelineID: eventlogger.PipelineID(p.pid), EventType: eventlogger.EventType(p.typ), NodeIDs: p.ids}); err == nil {
+					registered[k] = true
+				}
+			}
+			if cr.Intn(3) == 0 {
+				runtime.Gosched()
+			}
+		}
+		atomic.StoreInt32(&stop, 1)
+		wg.Wait()
+		before := map[*RecNode]int{}
+		var state []string
+		for k, p := range pipes {
+			state = append(state, fmt.Sprintf("%s/%s registered=%v", p.typ, p.pid, registered[k]))
+			for _, nd := range p.nodes {
+				before[nd] = nd.Reopens()
+				nd.OnReopen = nil
+				if !registered[k] {
+					nd.ReopenErr = &NodeErr{Obj: nd.Obj, Prov: "reopen-of-unregistered"}
+				}
+			}
+		}
+		err := b.Reopen(ctx)
+		wit := map[string]any{"pipelines_after_the_concurrent_phase": state, "registry_calls": steps}
+		if err != nil {
+			run.Violation("history-pattern:reopen-error", "after registrations and removals that overlapped Reopen calls have all returned, Broker.Reopen fails because of a node of a pipeline that is not registered: "+err.Error(), wit)
+		}
+		for k, p := range pipes {
+			if !registered[k] {
+				continue
+			}
+			for _, nd := range p.nodes {
+				if nd.Reopens()-before[nd] < 1 {
+					run.Violation("history-pattern:reopen-missed", fmt.Sprintf("after registrations and removals that overlapped Reopen calls have all returned, Broker.Reopen does not reach node %s of the registered pipeline %s/%s", nd.ID, p.typ, p.pid), wit)
+					break
+				}
+			}
+		}
+		run.Eval(fmt.Sprintf("conc|%d|%d", np, steps/8))
 	}
 }
